@@ -127,6 +127,8 @@ pub enum BackendKind {
     Mem,
     File,
     Ref,
+    /// in-memory store behind a store actor that keeps the replica open for the party's lifetime
+    Actor,
 }
 
 pub enum Party {
@@ -135,6 +137,17 @@ pub enum Party {
         _dir: Option<tempfile::TempDir>,
     },
     Ref(Adapter<RefBackend>),
+    /// the replica is opened once (sync on) and stays open: whatever an open replica keeps between
+    /// operations and between sessions is in play
+    Actor(iroh_docs::actor::SyncHandle),
+}
+
+impl Drop for Party {
+    fn drop(&mut self) {
+        if let Party::Actor(h) = self {
+            let _ = crate::sut::block_on_park(h.shutdown());
+        }
+    }
 }
 
 pub fn scratch_dir() -> tempfile::TempDir {
@@ -180,6 +193,18 @@ impl Party {
                 }
                 Party::Ref(a)
             }
+            BackendKind::Actor => {
+                let mut store = iroh_docs::store::Store::memory();
+                store
+                    .import_namespace(iroh_docs::Capability::Write(crate::universe::ns_secret(ns_i)))
+                    .expect("import");
+                let h = iroh_docs::actor::SyncHandle::spawn(store, None, "party".into());
+                crate::sut::block_on_park(h.open(ns, iroh_docs::actor::OpenOpts::default().sync())).expect("open");
+                for s in offered {
+                    let _ = crate::sut::block_on_park(h.insert_remote(ns, s.signed(), crate::sut::PEER, iroh_docs::ContentStatus::Missing));
+                }
+                Party::Actor(h)
+            }
         }
     }
 
@@ -187,6 +212,7 @@ impl Party {
         match self {
             Party::Real { sut, .. } => sut.dump(ns),
             Party::Ref(a) => a.0.map.values().cloned().collect(),
+            Party::Actor(h) => crate::sut::block_on_park(crate::sut::handle_dump(h, ns)).expect("dump through the store actor"),
         }
     }
 
@@ -194,6 +220,7 @@ impl Party {
         match self {
             Party::Real { sut, .. } => sut.sync_initial(ns),
             Party::Ref(a) => verif::backend_initial_message(a),
+            Party::Actor(h) => crate::sut::block_on_park(h.sync_initial_message(ns)),
         }
     }
 
@@ -222,6 +249,14 @@ impl Party {
                 from,
                 state,
             )),
+            Party::Actor(h) => {
+                verif::set_sync_config(if cfg == DEFAULT_CFG { None } else { Some(cfg) });
+                let r = crate::sut::block_on_park(h.sync_process_message(ns, msg, from, std::mem::take(state)));
+                verif::set_sync_config(None);
+                let (reply, st) = r?;
+                *state = st;
+                Ok(reply)
+            }
         }
     }
 }
